@@ -100,10 +100,24 @@ func main() {
 	for i := 0; i < *n; i++ {
 		g := &c.Gen{R: rng, OOBRate: 1 + rng.Intn(3), TrapRate: 4 + rng.Intn(8)}
 		m := g.Program(2 + rng.Intn(4))
+		carry := -1
+		if i%2 == 0 { // every other module also has a loop with a shift register of carried locals
+			m.Funcs = append(m.Funcs, c.CarryFunc(m, rng))
+			carry = len(m.Hosts) + len(m.Funcs) - 1
+		}
 		bin := m.Encode()
 		var calls [][]uint64
+		if carry >= 0 {
+			for _, nn := range []uint64{rng.Pick([]uint64{2, 3, 4, 5, 9}), rng.Pick([]uint64{0, 1, 2})} {
+				calls = append(calls, []uint64{uint64(carry), nn})
+			}
+		}
 		for k := 3 + rng.Intn(5); k > 0; k-- {
-			fi := len(m.Hosts) + rng.Intn(len(m.Funcs))
+			nrand := len(m.Funcs)
+			if carry >= 0 {
+				nrand-- // the carry function loops n times: it is only called with the small counts above
+			}
+			fi := len(m.Hosts) + rng.Intn(nrand)
 			cl := []uint64{uint64(fi)}
 			for _, t := range m.FuncSig(fi).P {
 				var v uint64
